@@ -1003,7 +1003,7 @@ class PandasModelBase(
         jointype = jointype.lower()
         mp = {
             "full": "outer",
-            "cross": "outer",  # cross new to Pandas 1.2.0 December 2020
+            "cross": "inner",  # joined on a constant scratch column: all pairs, none if a side is empty
         }
         try:
             return mp[jointype]
